@@ -9,4 +9,4 @@ NOTES = "See DESIGN.md. Every check: regenerates coq/Gen/Facts.v from /repo, reb
 ALL = ["C%02d" % i for i in range(1, 21)]
 NA_REASONS = {}
 # properties whose check has been integrated and verified by the coordinator (others stay in not_applicable until then)
-READY = ["C01", "C02", "C05", "C09", "C12", "C13", "C16", "C18"]
+READY = ["C01", "C02", "C04", "C05", "C09", "C12", "C13", "C14", "C16", "C17", "C18", "C20"]
